@@ -35,6 +35,11 @@ pub(crate) trait Session {
     /// call is a no-op (the first recorded reason wins).
     fn set_session_stop_reason(&mut self, reason: SessionStopReason);
 
+    /// The session has stopped: no disposition can arrive any more for the deliveries its
+    /// sending links are still waiting on, so those waiters are released (they report the
+    /// recorded stop reason). Called by the engine after the stop reason has been recorded.
+    fn abandon_pending_deliveries(&mut self);
+
     /// The shared cell holding why the session (or its connection) stopped
     fn session_stop_reason(&self) -> &Arc<OnceLock<SessionStopReason>>;
 
